@@ -22,6 +22,7 @@ import (
 	"sync"
 	"time"
 
+	"free5gclib/UeauCommon"
 	"free5gclib/aper"
 	"free5gclib/milenage"
 	"free5gclib/nas"
@@ -318,6 +319,7 @@ func workloadTight(seed int64, iters int) [][]byte {
 	// a UE context of its own for the downlink direction (tglib.NASDecode): algorithms and keys differ per goroutine
 	ue := tglib.NewRanUeContext(fmt.Sprintf("imsi-20893%010d", seed), seed, uint8(1+seed%2), uint8(1+seed%2))
 	ue.KnasEnc, ue.KnasInt = kenc, kint
+	ue.AuthenticationSubs = tglib.GetAuthSubscription(fmt.Sprintf("%x", ev.Bytes(r, 16)), fmt.Sprintf("%x", ev.Bytes(r, 16)), "")
 	dlPlain := []byte{0x7e, 0x00, 0x54, 0xd1}
 	for i := 0; i < iters; i++ {
 		if i%4 == 0 {
@@ -339,6 +341,23 @@ func workloadTight(seed int64, iters int) [][]byte {
 			security.NASEncrypt(alg, kenc, uint32(i), 1, uint8(i%2), c)
 			mac, _ := security.NASMacCalculate(alg, kint, uint32(i), 1, uint8(i%2), msg)
 			outs = append(outs, c, mac)
+		}
+		// key derivation function and the complete UE-side derivation, under this goroutine's own key material (the same FC values are
+		// in use by every goroutine at the same time)
+		if i%2 == 1 {
+			p0 := []byte(fmt.Sprintf("5G:mnc%03d.mcc%03d.3gppnetwork.org", seed%1000, (seed*7)%1000))
+			p1 := []byte{byte(seed), byte(i), byte(i >> 8), 4, 5, 6}
+			for _, fc := range []string{UeauCommon.FC_FOR_KAUSF_DERIVATION, UeauCommon.FC_FOR_KSEAF_DERIVATION, UeauCommon.FC_FOR_ALGORITHM_KEY_DERIVATION} {
+				outs = append(outs, UeauCommon.GetKDFValue(kenc[:], fc, p0, UeauCommon.KDFLen(p0), p1, UeauCommon.KDFLen(p1)))
+			}
+		}
+		if i%16 == 5 {
+			var autn [16]byte
+			copy(autn[:], msg)
+			autn[0] ^= byte(i)
+			res := ue.DeriveRESstarAndSetKey(ue.AuthenticationSubs, autn, kint[:], "5G:mnc093.mcc208.3gppnetwork.org", "93", "208")
+			outs = append(outs, res, append([]byte{}, ue.Kamf...), append([]byte{}, ue.KnasInt[:]...), append([]byte{}, ue.KnasEnc[:]...))
+			ue.KnasEnc, ue.KnasInt = kenc, kint
 		}
 		if i%8 == 0 {
 			b, _ := tglib.GetUplinkNASTransport(seed*100000+int64(i), seed, msg)
